@@ -474,3 +474,47 @@ pub fn random(seed: u64, count: u64, canary: bool) {
     stat("runs", runs);
     stat("write_ops", ops);
 }
+
+
+/// The Rust-owned writer (diplomat_buffer_write_create) when the allocator refuses the growth a write needs. Two outcomes are legitimate:
+/// the process ends in Rust's allocation-failure abort before anything is released (what `Vec::reserve` does), or the growth is reported
+/// as failed — then the sticky flag must be set, the accessors must answer (NULL, 0), what was written before is still owned by the
+/// writer, and destroying it must release that buffer exactly once (sanitizers / Miri / glibc watch the frees).
+pub fn oom(cap0: usize, prelen: usize) {
+    use std::fmt::Write as _;
+    unsafe {
+        let w = diplomat_buffer_write_create(cap0);
+        let pre = "p".repeat(prelen);
+        let _ = (*w).write_str(&pre);
+        let m = w as *const Mirror;
+        if (*m).len != prelen || (*m).grow_failed {
+            viol(format!("C12 oom: before the refused growth len={} failed={} expected len={prelen}", (*m).len, (*m).grow_failed));
+        }
+        let big = "y".repeat(1 << 16);
+        crate::FAIL_ABOVE.store(4096, std::sync::atomic::Ordering::Relaxed);
+        println!("ARMED");
+        let r = (*w).write_str(&big);
+        crate::FAIL_ABOVE.store(usize::MAX, std::sync::atomic::Ordering::Relaxed);
+        println!("SURVIVED");
+        if r.is_ok() && !(*m).grow_failed && (*m).len != prelen + big.len() {
+            viol(format!("C12 oom: refused growth reported as success with len={}", (*m).len));
+        }
+        if (*m).grow_failed {
+            let gb = diplomat_buffer_write_get_bytes(&*w);
+            let gl = diplomat_buffer_write_len(&*w);
+            if !gb.is_null() || gl != 0 {
+                viol(format!("C12 oom: accessors after a failed growth returned ({:?},{gl}), expected (NULL,0)", gb));
+            }
+            if (*m).len != prelen {
+                viol(format!("C12 oom: a partial chunk was kept: len={} expected {prelen}", (*m).len));
+            }
+            // later writes stay dropped
+            let _ = (*w).write_str("z");
+            if (*m).len != prelen {
+                viol(format!("C12 oom: a write after the failed growth was appended (len={})", (*m).len));
+            }
+        }
+        diplomat_buffer_write_destroy(w);
+        stat("oom_scenarios", 1);
+    }
+}
